@@ -68,6 +68,7 @@ type cVariant struct {
 	NoFrom  bool   `json:"nofrom"`  // soft types declared by hand: relationships without FromType
 	Built   bool   `json:"built"`   // resource family: a soft resource is given a copy of a type made by BuildType (it carries a NewFunc)
 	NamedID bool   `json:"namedid"` // resource family: wrapped structs have an ID field of a defined string type
+	Decoy   bool   `json:"decoy"`   // resource family: wrapped structs carry decoy fields (see kindMap)
 }
 
 type cCase struct {
